@@ -70,8 +70,9 @@ CLAIMED["C01"] = dict(
          "binary digit lists, writes at distinct positions and the bits of a two's-complement value, plus a value-free wiring check of "
          "every entry, wiring_ok_all), and therefore it is the ISA's encoding of that mnemonic (opcode_word_is_isa_encoding). (3) "
          "Thorough tier: the independent ISA decoder inverts that encoding at the opcode word for every canonical instruction and every "
-         "combination of field values - complete evaluation of 60 k words (Deep/C01Decode: fields_read_back, "
-         "decoder_finds_the_instruction). Tie: every mnemonic x every operand-form combination assembled by the real code, compared "
+         "combination of field values - proved by arithmetic, not enumerated: the operand fields of each of the 16 formats fill the low bits of "
+         "the word, a word matches an entry exactly when it lies in [base, base + 2^bits), the ranges of different entries do not meet "
+         "(Deep/C01Decode: clear_eq, matches_iff, table_apart, fields_read_back, decoder_finds_the_instruction). Tie: every mnemonic x every operand-form combination assembled by the real code, compared "
          "word for word with the character-level model of get_opcode/compile_insn and decoded by the executable Lean Spec decoder "
          "(operation, operands, order, values, length).",
     design_ref="DESIGN.md §5 C01",
@@ -354,8 +355,8 @@ CLAIMED["C08"] = dict(
          "error or critical report always turns the run into a failure and warnings never do (error_report_fails, "
          "critical_report_fails, warning_report_passes); the stack of values being computed (deferred.Awaiting) makes every wait end on "
          "every graph of thunks, cyclic or not, within a fuel fixed by the sizes alone, reports a cycle only when some thunk depends on "
-         "itself, never on a graph that has a rank, and changes no other answer (Await.wait_ends, cycle_sound, acyclic_no_cycle, "
-         "agrees_with_plain; Model/Await.lean is tied to the real Awaiting/Deferred/Promise by scripts of waits and settlements on random "
+         "itself, never on a graph that has a rank, and changes no other answer; the same termination holds for the model of the code itself, "
+         "stack plus both memories (Await.wait_ends, cycle_sound, acyclic_no_cycle, agrees_with_plain, memo_wait_ends; Model/Await.lean is tied to the real Awaiting/Deferred/Promise by scripts of waits and settlements on random "
          "cyclic graphs, verb await). Tie and search: grammar G - every mnemonic and directive, every operand "
          "form and operator, three bracket kinds, all number/character/string spellings, nesting <= 8, planted faults, token- and "
          "character-level mutation, plus every infix operator x 9 kinds of left and right operand and chains of 2-58 definitions through 0-7 "
